@@ -34,7 +34,8 @@ CHECKS = {
         text="Complete over the finite box: the executor partitions (-3..12)^4, (-3..12)^2 and -3..12 into paths of the real "
              "constructors; z3 shows every rejecting path contains no valid tuple; the accepting paths (exactly 81 / 36 / 9 / 6) "
              "are tallied against a symmetry-orbit oracle (equality and hash classes, 21 keys, multiplicity = class size, 3/3/15, "
-             "Voigt table, string/int/2-index/4-index spellings, file-column spellings).",
+             "Voigt table, string/int/2-index/4-index spellings, file-column spellings); the one-argument spellings given as numpy integers / numpy "
+             "strings agree with the plain ones (type twin).",
         note="Trusted: executor + z3 feasibility answers (an 'unknown' is reported, never ignored); the oracle (orbits of the "
              "minor/major symmetries and the Voigt table quoted in the property). Indices outside -3..12 are outside the claim.",
         design="3/C10"),
@@ -46,7 +47,7 @@ CHECKS = {
         text="Exact for all real tensors: per system z3 proves relations |= every Laue-invariance equation and invariance |= every "
              "parsed relation (both inclusions of subspaces of R^21). Bounded for the fill part: supplied-set families and 1-3 rows, "
              "each output column proved equal to the invariant tensor's component, also when the same supplied set is filled a second time in the "
-             "same process with its columns in another order.",
+             "same process with its columns in another order, and when the caller's frame carries row labels of its own.",
         note="Trusted: the Laue generators written in the harness (standard setting), sympy's exact pseudo-inverse as the lstsq "
              "specification (LAPACK's numerical rank decision is outside), the tensor expansion map. Non-vanishing components are "
              "assumed not to lie within drop_atol of zero at every volume (recorded cut).",
@@ -89,8 +90,10 @@ CHECKS = {
              "polynomial identities in all spectrum/strain symbols; on every explored path where approximate-equality de-duplication "
              "merges two different parameter sets z3 shows they agree to 1e-9, and the whole calculation runs to completion on every such "
              "path (request sets with mixed shear keys included); a task list calculated a second time with other strains returns the values of "
-             "a fresh list; a request handed over as a one-shot iterable gives the results of the same request as a list.",
-        note="Request sets of size 3-20 other than the listed ones are outside; identity obligations assume generic strain fractions "
+             "a fresh list; a request handed over as a one-shot iterable gives the results of the same request as a list; a strain given as one triple "
+             "(tuple / list / 1-D array) gives the values of the table repeating it at every volume.",
+        note="Undecided exact equalities between structurally different symbolic values are cut as 'not equal' (general position, recorded). "
+             "Request sets of size 3-20 other than the listed ones are outside; identity obligations assume generic strain fractions "
              "(structural de-dup cut), the merge-tolerance obligations remove that assumption for small request sets.",
         design="3/C04"),
     "C13": dict(
@@ -105,7 +108,8 @@ CHECKS = {
              "real Calculator._load hands the same volume-block sequence to the QHA layer whatever order the phonon file lists them in (or, "
              "if the order gets through, qha's grid refinement is compared as exact linear maps of symbolic free energies and interpolate_modes "
              "as uninterpreted interpolants of its node sets); re-orderings of static rows that move the strain reference row are decided to "
-             "1e-6 by LRA on concrete volume grids.",
+             "1e-6 by LRA on concrete volume grids; through the real Calculator._load every static row keeps its volume, components and lattice "
+             "parameters together for 5 (24) row orders of a table with lattice block.",
         note="Outside: the affine invariance of the static fit for symbolic volumes (decided on concrete grids only), rounding; the "
              "phonon volume-order obligation is decided at the hand-over (identical data downstream), not by executing qha and scipy on "
              "permuted data.",
@@ -180,7 +184,8 @@ CHECKS = {
              "centred log-derivatives of the fitted axes (thirds without lattice block); static P = -grad LSQ(E)/grad v; static part "
              "T-independent, phonon part independent of the static table; every grid setting reaches the QHA calculator unchanged on top of "
              "qha's defaults and read_input places volumes / energies / frequencies[volume,q,mode] / weights from the right fields; the "
-             "settings of a second Calculator load are its own file over the packaged defaults (history twin).",
+             "settings of a second Calculator load are its own file over the packaged defaults (history twin); the same with a static table of exactly "
+             "4 volumes (lower end of the quantifier; 4 and 7 with lattice block in the thorough tier).",
         note="Outside: text parsing of the three files, that qha/LAPACK/scipy kernels compute what their names say, grid settings; the "
              "crystal-system fill is C08/C09. In the lattice case the strain fractions handed downstream are abstracted by fresh symbols "
              "after their value has been checked (recorded cut).",
@@ -192,7 +197,8 @@ CHECKS = {
         text="For each of the seven methods and the listed orders: the three returned arrays are exp(F), -F', -F'' of one and the same "
              "interpolant built from the flipped (ln V, ln omega) nodes with the documented node selection (for every implementation of "
              "the interpolant); lsq_poly is exact for ln omega polynomial in ln V up to the order for every admissible number of volumes down to nv = order+1; interpolate_modes fills slot (q,m) from "
-             "that mode only and leaves Gamma acoustic slots zero; plot_modes draws freq / gamma / V dgamma/dV for n = 0, 1, 2.",
+             "that mode only and leaves Gamma acoustic slots zero; plot_modes draws freq / gamma / V dgamma/dV for n = 0, 1, 2 and every -n the `cij modes` "
+             "parser admits is drawable; interpolate_modes without an order runs like the method's own default order (twins).",
         note="That scipy's interpolants reproduce power laws on the extrapolated grid is library numerics (outside; used only in replays); the "
              "stubs do carry the library classes' extrapolation contract (probed on the installed scipy): every method is defined on a grid "
              "reaching beyond the sampled volumes. Known finding: 'hermite' cannot be constructed (known_findings.json).",
@@ -207,7 +213,8 @@ CHECKS = {
              "documented field the schema neither rejects a documented-valid nor accepts a documented-invalid value (all JSON kinds, all "
              "numbers); required sections, closed objects, shipped files; YAML and JSON spellings of every documented field with delicate values "
              "(numeric-looking strings, integral floats, booleans, null) load to the written object and validate alike; a second "
-             "apply_default_config call in one process is unaffected by the first (CrossHair, symbolic leaves); a user section over a plain "
+             "apply_default_config call in one process is unaffected by the first (CrossHair, symbolic leaves); grid steps (DT, DELTA_P, the two sampling "
+             "steps) must be positive and DT_SAMPLE / static_only are typed; a user section over a plain "
              "default value (and the reverse) wins as a whole.",
         note="Skeleton family is bounded (depth<=3, seeded); dict-vs-leaf clashes excluded. The schema compiler covers the keyword subset "
              "the packaged schema uses and is cross-validated against jsonschema on every solver witness.",
@@ -221,7 +228,7 @@ CHECKS = {
              "mismatches; evec_sort (n=2,3; rational orthonormal real bases with signed permutations and rational complex unitary bases with phases "
              "1, i, -1, -i; perturbation box of radius 0.05) returns the expected order on every feasible path of the greedy argmax; "
              "evec_load returns every complex component at its (q, mode, atom, axis) place for files in matdyn layout (token files); integer-valued "
-             "displacement vectors behave like floats (dtype twin); seven dimension-mismatch shapes rejected; list / tuple / array containers of the two "
+             "displacement vectors behave like floats (dtype twin); dtype predicates of the code see modelled complex rows as complex; seven dimension-mismatch shapes rejected; list / tuple / array containers of the two "
              "bases in any combination sort alike (container twin).",
         note="Outside: dimensions 4-60, unitary bases with irrational entries and general phases for the sort; for evec_load the float() "
              "parsing itself and the digit regexes on symbolic text (q coordinates and frequencies are concrete, pairwise distinct).",
@@ -261,10 +268,13 @@ CHECKS = {
                   "write_output repeated and re-ordered, two calculators interleaved, fill applied twice); z3 equality of everything observed",
         text="Partial: the clauses of the statement that are about values the code computes. For all symbolic inputs and the listed "
              "histories (2-3 reads per quantity, 3 access orders, 3 write_output calls, 2 calculators in one process, fill applied twice) "
-             "every array observed later equals the one observed first: phonon contribution objects, task-list results, all volume- and "
-             "pressure-base quantities, the tables handed to the table writer, the first calculator's results after a second one was built, "
+             "every array observed later equals the one observed first: every property of the phonon contribution objects (found by introspection, cached "
+             "intermediates Q, Q1, Q2 included, 4 access orders), task-list results, all volume- and "
+             "pressure-base quantities, the tables handed to the table writer (one configuration object with file-name / unit override entries across all calls), the first "
+             "calculator's results after a second one was built, "
              "and a symmetry-filled table filled again (tables satisfying the relations; a table accepted with a misfit eps in [1/1000, 1/10] "
-             "is the known finding: the fill is not idempotent there).",
+             "is a known finding: the fill is not idempotent there; so is a table whose symmetry-allowed component vanishes identically: the fill refuses "
+             "its own output).",
         note="NOT covered and not coverable by this technique: the interpreter's hash seed, unrelated entries in the working directory and "
              "byte-identical output files are properties of the process environment, not values the code computes with; only re-running the "
              "program varies them (differential re-execution). Histories longer than the listed ones are outside. Related history obligations "
